@@ -73,6 +73,25 @@ def framed_by_newline(fb):
     return all(_lenval(ma[0], L) == L + 1 and _lenval(cp[0], L) == L and _lenval(nl[0], L) == L and _lenval(wl, L) == L + 1 for L in (0, 7, 1000))
 
 
+def empty_arg_single_exit(body):
+    """single-exit form of "an empty argument fails": a result variable preset to SNOOPY_OUTPUT_FAILURE, everything that touches the file inside
+    `if (0 != strcmp(arg, "")) { ... }`, nothing but `return <that variable>;` behind it"""
+    from .translate import _if_else
+    m = re.search(r"\bint\s+(\w+)\s*=\s*SNOOPY_OUTPUT_FAILURE\s*;", body)
+    g = re.search(r'\bif\s*\(\s*(?:0\s*!=\s*strcmp\s*\(\s*arg\s*,\s*""\s*\)|strcmp\s*\(\s*arg\s*,\s*""\s*\)\s*!=\s*0|\'\\0\'\s*!=\s*arg\s*\[\s*0\s*\]|arg\s*\[\s*0\s*\]\s*!=\s*\'\\0\')\s*\)', body)
+    if not (m and g and m.start() < g.start()):
+        return False
+    try:
+        cond, th, el, end = _if_else(body, g.start())
+    except ValueError:
+        return False
+    before, after = body[:g.start()], body[end:]
+    touches = r"\b(open|fopen|write|snoopy_message_generateFromFormat)\s*\("
+    if el is not None or re.search(touches, before) or re.search(touches, after):
+        return False
+    return re.fullmatch(r"\s*return\s+%s\s*;\s*" % re.escape(m.group(1)), after) is not None and len(re.findall(r"\breturn\b", body)) == 1
+
+
 def fixed_path_arg(run, rel, body):
     """devtty/devnull: the path handed to snoopy_output_fileoutput in the function's single call of it: a literal, a macro of this file
     defined as one literal, or a local pointer whose only value is one literal (names are free)"""
@@ -141,7 +160,8 @@ def tr_output(run):
     else:
         v["file_suffix"] = b""
         notes.append("translator: fileoutput.c record suffix not recognised")
-    v["file_empty_arg_fails"] = bool(re.search(r'if\s*\(\s*0\s*==\s*strcmp\s*\(\s*arg\s*,\s*""\s*\)\s*\)\s*\{\s*return\s+SNOOPY_OUTPUT_FAILURE', fb))
+    v["file_empty_arg_fails"] = bool(re.search(r'if\s*\(\s*0\s*==\s*strcmp\s*\(\s*arg\s*,\s*""\s*\)\s*\)\s*\{\s*return\s+SNOOPY_OUTPUT_FAILURE', fb)) \
+        or empty_arg_single_exit(func_body(fo, "snoopy_output_fileoutput") or "")
     for k, f, fn in (("devtty_path", "devttyoutput", "snoopy_output_devttyoutput"), ("devnull_path", "devnulloutput", "snoopy_output_devnulloutput")):
         b = func_body(strip_comments(run.src("src/output/%s.c" % f)), fn) or ""
         v[k] = fixed_path_arg(run, "src/output/%s.c" % f, b)
